@@ -26,6 +26,8 @@ def gen_schemas(tier, seed, want_random=None, k=None):
         if k <= 2 or label.count("+") <= 1:
             for l2, t2 in S.wrappers(label, t, nm):
                 out.append(("exhaustive", l2, t2))
+    for label, t in S.special_shapes():
+        out.append(("special", label, t))
     rng = random.Random(seed)
     n = want_random if want_random is not None else (400 if tier == "quick" else 6000)
     rs = S.RandomSchemas(rng)
